@@ -1316,6 +1316,7 @@ static void MakeCode_7700(void) {
     CodeLen   = 0;
     DontPrint = False;
     BankReg   = Reg_DT;
+    WordSize  = False;
 
     /* zu ignorierendes */
 
